@@ -141,6 +141,24 @@ func (l *Lowerer) stmt(s ast.Stmt, label string) {
 		ch, _ := l.tr(x.Chan)
 		v, vt := l.tr(x.Value)
 		l.chanSend(ch, x.Chan, v, vt, x)
+		// ghost effects the enclosing contract attaches to this send ("send.<field or variable name>")
+		name := ""
+		switch c := ast.Unparen(x.Chan).(type) {
+		case *ast.SelectorExpr:
+			name = "send." + c.Sel.Name
+		case *ast.Ident:
+			name = "send." + c.Name
+		}
+		if name != "" {
+			tn := l.tmp(v.Sort)
+			l.assign(tn, v.Sort, v)
+			l.callSiteNamed(name, map[string]envEntry{"$value": {V(tn, v.Sort), vt}}, x)
+			after := l.afterCall
+			l.afterCall = nil
+			for _, f := range after {
+				f()
+			}
+		}
 	default:
 		l.unsupported(s, fmt.Sprintf("statement %T", s))
 		l.emit(&Stmt{Kind: SHavocAll, Note: "unsupported statement"})
@@ -537,9 +555,11 @@ func (l *Lowerer) forStmt(x *ast.ForStmt, label string) {
 		l.jump(body)
 	}
 	l.cur = body
+	l.iterStart(ls)
 	l.block(x.Body)
 	l.jump(post)
 	l.cur = post
+	l.iterEnd(ls, nil, ord, x)
 	if x.Post != nil {
 		l.stmt(x.Post, "")
 	}
@@ -613,6 +633,32 @@ func (l *Lowerer) countedLoop(x *ast.ForStmt) (string, *Term) {
 	}
 	name := l.localVar(obj)
 	return name, V(name, "Int")
+}
+
+// iterStart records the point where it(...) snapshots are taken (start of an iteration body).
+func (l *Lowerer) iterStart(ls *LoopSpec) {
+	if ls == nil || len(ls.IterEnsures) == 0 || l.cur == nil {
+		return
+	}
+	l.itPoints = append(l.itPoints, acqPoint{l.cur, len(l.cur.Stmts)})
+}
+
+// iterEnd checks the per-iteration postconditions at the end of an iteration.
+func (l *Lowerer) iterEnd(ls *LoopSpec, hidden map[string]envEntry, ord int, node ast.Node) {
+	if ls == nil || l.cur == nil {
+		return
+	}
+	for _, c := range ls.IterEnsures {
+		savedPos := l.specPos
+		l.specPos = loopBodyPos(node)
+		t := l.specTerm(c, hidden)
+		l.specPos = savedPos
+		lbl := fmt.Sprintf("loop%d", ord)
+		if c.Label != "" {
+			lbl += "." + c.Label
+		}
+		l.assertOb("iter-ensures", lbl, c.Src, node, t, clausePropsOr(l.fr, c, l.curProps))
+	}
 }
 
 func (l *Lowerer) decreasesStart(ls *LoopSpec, hidden map[string]envEntry) string {
@@ -737,9 +783,11 @@ func (l *Lowerer) rangeStmt(x *ast.RangeStmt, label string) {
 			l.wf(ev, elemT)
 			setKV(x.Value, ev, elemT)
 		}
+		l.iterStart(ls)
 		l.block(x.Body)
 		l.jump(post)
 		l.cur = post
+		l.iterEnd(ls, hidden, ord, x)
 		l.assign(iVar, "Int", Add(iv, IntLit(1)))
 		l.invClauses(ls, hidden, "inv-preserve", ord, x)
 		li.LastBody = len(l.f.Blocks) - 1
@@ -807,9 +855,11 @@ func (l *Lowerer) rangeStmt(x *ast.RangeStmt, label string) {
 		l.cur = body
 		v, vt := l.recvFrom(coll, x.X, u.Elem(), x)
 		setKV(x.Key, v, vt)
+		l.iterStart(ls)
 		l.block(x.Body)
 		l.jump(post)
 		l.cur = post
+		l.iterEnd(ls, nil, ord, x)
 		l.invClauses(ls, nil, "inv-preserve", ord, x)
 		li.LastBody = len(l.f.Blocks) - 1
 		l.cur = nil
@@ -1169,6 +1219,18 @@ func (l *Lowerer) returnStmt(x *ast.ReturnStmt) {
 			l.assign(n, l.f.Vars[n], vals[i])
 		}
 	}
+	if fr.parent == nil && fr.contract != nil && fr.contract.PerReturn && len(fr.deferGuard) == 0 {
+		l.emitEnsures()
+	}
+	if fr.parent == nil && l.cur != nil && !l.spec && l.p.opts.unroll == 0 {
+		// vacuity guard: this return must be reachable under the assumptions made on the way
+		ord := l.obOrd["canary/return"]
+		l.obOrd["canary/return"] = ord + 1
+		ob := &Oblig{Name: fmt.Sprintf("%s/canary/return#%d", l.fnKey, ord), Kind: "canary", Func: l.fnKey, Canary: true, Props: l.curProps,
+			Pos: l.pos(x), Descr: "vacuity guard: this return statement is reachable (the assumptions on the path are consistent)"}
+		l.f.Obligs = append(l.f.Obligs, ob)
+		l.emit(&Stmt{Kind: SAssert, E: tFalse, Ob: ob})
+	}
 	l.jump(fr.retBlock)
 }
 
@@ -1510,6 +1572,24 @@ func (l *Lowerer) lockOp(lock *Term, acquire bool, node ast.Node) {
 		if fields, ok := l.p.guardedBy[key]; ok {
 			owner := key[:strings.LastIndex(key, ".")]
 			for _, f := range fields {
+				if strings.HasPrefix(f, "contents(") {
+					// the map held in this (stable) field: its contents may have been changed by others
+					fn := strings.TrimSuffix(strings.TrimPrefix(f, "contents("), ")")
+					ft := l.p.fieldType(owner, fn)
+					mt, ok := ft.Underlying().(*types.Map)
+					if !ok {
+						continue
+					}
+					mref := l.load(&place{kind: pHeap, ref: lock.Args[0], owner: owner, path: fn, typ: ft})
+					dom, val, card := l.mapVars(mt)
+					for _, hvv := range []*Term{dom, val, card} {
+						es := arrayElemSort(hvv.Sort)
+						tn := l.tmp(es)
+						l.havoc(tn, es)
+						l.assign(hvv.Name, hvv.Sort, Store(hvv, mref, V(tn, es)))
+					}
+					continue
+				}
 				name := l.fieldHeapName(owner, f)
 				srt, known := l.f.Vars[name]
 				if !known {
